@@ -308,3 +308,28 @@ impl ArgumentResult {
         Ok(args)
     }
 }
+
+#[cfg(feature = "verif-hooks")]
+impl ArgumentResult {
+    /// Positional-only argument list
+    pub fn verif_new(positional: Vec<Value>, span: Span) -> Self {
+        ArgumentResult {
+            positional,
+            named: BTreeMap::new(),
+            separator: ListSeparator::Comma,
+            span,
+            touched: BTreeSet::new(),
+        }
+    }
+
+    /// `get_positional` without the `touched` bookkeeping
+    pub fn verif_take_positional(&mut self, idx: usize) -> Option<Value> {
+        self.positional
+            .get_mut(idx)
+            .map(|v| mem::replace(v, Value::Null))
+    }
+
+    pub fn verif_positional_len(&self) -> usize {
+        self.positional.len()
+    }
+}
